@@ -60,6 +60,28 @@ func replayPDU(arg string) string {
 			out = append(out, "value: "+coqValue(p))
 			n, err, w, panicked, pmsg := marshalRec(p)
 			out = append(out, fmt.Sprintf("Marshal: n=%d err=%v panicked=%v %s writes=%d", n, err, panicked, pmsg, len(w.calls)))
+			if rp["dest"] != nil {
+				var kind, heldHex string
+				var room int
+				_ = json.Unmarshal(rp["dest"], &kind)
+				_ = json.Unmarshal(rp["held"], &heldHex)
+				_ = json.Unmarshal(rp["room"], &room)
+				held, _ := hex.DecodeString(heldHex)
+				q := reflect.New(t.T).Interface()
+				_ = json.Unmarshal(rp["json"], q)
+				if kind == "twice" {
+					_, _, _, _, _ = marshalRec(q)
+					n2, err2, w2, panicked2, pmsg2 := marshalRec(q)
+					out = append(out, fmt.Sprintf("second Marshal of the same pointer: n=%d err=%v panicked=%v %s writes=%d", n2, err2, panicked2, pmsg2, len(w2.calls)))
+					if len(w2.calls) > 0 {
+						out = append(out, "second frame: "+hex.EncodeToString(w2.calls[0]))
+					}
+				} else {
+					n2, err2, got, panicked2, pmsg2 := marshalInto(q, kind, held, room)
+					out = append(out, fmt.Sprintf("Marshal into %s holding %s (room %d): n=%d err=%v panicked=%v %s", kind, heldHex, room, n2, err2, panicked2, pmsg2))
+					out = append(out, "destination afterwards: "+hex.EncodeToString(got))
+				}
+			}
 			if err == nil && !panicked && len(w.calls) > 0 {
 				out = append(out, "frame: "+hex.EncodeToString(w.calls[0]))
 				o := readOnce(&chunkReader{data: w.calls[0], sched: []int{len(w.calls[0])}})
@@ -75,7 +97,14 @@ func replayPDU(arg string) string {
 		_ = json.Unmarshal(rp["hex"], &hx)
 		_ = json.Unmarshal(rp["sched"], &sched)
 		data, _ := hex.DecodeString(hx)
-		for i, o := range readAll(data, sched, 64) {
+		var eofWithData bool
+		var zeroEvery int
+		if rp["eof_with_data"] != nil {
+			_ = json.Unmarshal(rp["eof_with_data"], &eofWithData)
+			_ = json.Unmarshal(rp["zero_every"], &zeroEvery)
+			out = append(out, fmt.Sprintf("transport: last octets returned together with io.EOF=%v, a 0-octet read every %d reads", eofWithData, zeroEvery))
+		}
+		for i, o := range readAllAttr(data, sched, 64, eofWithData, zeroEvery) {
 			line := fmt.Sprintf("call %d: %s consumed=%d err=%v %s", i, o.Kind, o.Consumed, o.Err, o.Msg)
 			if o.PDU != nil {
 				line += " value=" + coqValue(o.PDU)
